@@ -186,6 +186,13 @@ def run_cfg(ctx, cfg):
         ctx.ob("poll-per-round" + tag, SOLVER + "propagate", "callers", callers >= {SOLVER + "run_sat", SOLVER + "propagate_and_learn"},
                prop.loc(), "callers found: %s" % sorted(callers))
 
+        # a propagation round is a walk over the unpropagated trail; it only exists inside propagate, behind the poll - a second
+        # routine that walks the trail (seed C12-14: the learn loop re-propagates without polling) is a round without a poll
+        import mech as _m
+        DTK = "resolvo::solver::decision_tracker::DecisionTracker::"
+        _m.callers_exact(ctx, "poll-per-round", crate, DTK + "next_unpropagated", {SOLVER + "propagate"}, tag, 1)
+        _m.callers_exact(ctx, "poll-per-round", crate, "resolvo::solver::watch_map::WatchMap::cursor", {SOLVER + "propagate"}, tag, 1)
+
     # ---- rule 3: payload provenance ----------------------------------------------------
     n_payload = 0
     for b in crate.bodies:
@@ -199,6 +206,10 @@ def run_cfg(ctx, cfg):
             if is_macro(s, "derive") or any(str(e).startswith("macro:Debug") for e in s.get("exp", [])):
                 continue
             n_payload += 1
+            if not r["ops"]:
+                ctx.ob("payload-provenance" + tag, b.key, "Cancelled-carries-the-polled-value", False, loc(b, i),
+                       "the Cancelled variant has no payload: the value the provider returned from should_cancel_with_value is lost")
+                continue
             d, chain = q.origin_thru(b, r["ops"][0])
             ok = False
             if d["k"] == "arg":
